@@ -433,7 +433,7 @@ def mk_overlap(same):
     @t.symbolic
     def _(run):
         ex, st, pre, A0, tw, to = setup(run, same=same)
-        ex.callees['isinstance'] = lambda e, s, r, a, k: VBool(z3.BoolVal(isinstance(a[1], VStr)))
+        ex.callees['isinstance'] = lambda e, s, r, a, k: VBool(z3.BoolVal(ast.unparse(a[1]) == 'XsdAnyElement'))
         ex.names['XsdAnyElement'] = VStr(SV('XsdAnyElement')); ex.names['elements'] = OPAQUE
         outs = ex.run(st, pre)
         y = z3.String('y')
